@@ -227,6 +227,9 @@ def run_case(ctx, rc, tags, reg, bins, explicit, lon, lat, mags, cell, mk, hosti
             d = numpy.argwhere(smc != ref)[:5] if smc.shape == ref.shape else None
             ctx.violate("space-magnitude count array != number of events per (cell, bin)", rc, observed={"at": d, "got": None if d is None else smc[tuple(d.T)]},
                         expected=None if d is None else ref[tuple(d.T)], tags=dict(tags, api="spatial_magnitude_counts", clause="entries"))
+        if ctx.evaluations % 151 == 0 and n:
+            ctx.sample({"region": tags["region"], "n_cells": int(ncell), "mag_edges_head": bins[:4], "events_head(lon,lat,mag)": numpy.column_stack([lon, lat, mags])[:4],
+                        "reference_cell_bin_head": numpy.column_stack([cell, mk])[:4], "count_array_total": float(smc.sum()), "nonzero_entries_head": numpy.argwhere(smc > 0)[:4]})
         ok1, sc, tb = ctx.call(cat.spatial_counts)
         ok2, mc, tb2 = ctx.call(cat.magnitude_counts, **kw)
         ok3, pr, tb3 = ctx.call(cat.spatial_event_probability)
